@@ -38,4 +38,11 @@ def run(ctx):
     ctx.guard("process-order", "chacha20::ChaCha", lambda: C04.check_process(ctx, P, "chacha20::ChaCha"))
     C03.check_tables(ctx, P, "sse2")
     ctx.guard("keydep", "sse2", lambda: C03.check_sse2_layout(ctx, P))
-    ctx.not_decided += ["ChaCha keystream values (C03) and Poly1305 arithmetic (C05)", "cipher.offset == 64 after the block-0 request as an interval fact (tier 2; the 64-byte request length is decided)"]
+    # the tag is a Poly1305 tag over a ChaCha keystream: the MAC's structural / bounds rules and the cipher engine's
+    # block function (value graphs) are shared rule instances with C05 and C03
+    from . import C05 as _C05, arx as _arx
+    _C05.check_all(ctx, P)
+    _got = []
+    ctx.guard("block-eq", "chacha-sse2", lambda: _got.append(_arx.check_engines(ctx, {"K0": P}, families=("chacha",))))
+    ctx.check(_got == [16], "floor", "block-eq", "16 pieces of the ChaCha engine of the default build compared with the specification", "only %s ChaCha engine pieces compared" % _got, key="floor:block-eq")
+    ctx.not_decided += ["the composition of the verified ChaCha pieces into the keystream (C03), the Poly1305 tag as a number (C05)", "cipher.offset == 64 after the block-0 request as an interval fact (tier 2; the 64-byte request length is decided)"]
